@@ -3,6 +3,7 @@ mod engine;
 mod fmts;
 mod gen;
 mod lexgen;
+mod peg;
 mod pipes;
 mod plan;
 mod printer;
@@ -14,7 +15,7 @@ use engine::*;
 use std::path::PathBuf;
 
 fn registry() -> Vec<&'static Prop> {
-    vec![&props::c01::PROP, &props::c02::PROP, &props::c05::PROP, &props::c12::PROP, &props::c13::PROP, &props::c14::PROP, &props::c15::PROP, &props::c16::PROP, &props::c17::PROP, &props::c03::PROP, &props::c09::PROP, &props::c10::PROP, &props::c04::PROP, &props::c06::PROP, &props::c07::PROP, &props::c08::PROP]
+    vec![&props::c01::PROP, &props::c02::PROP, &props::c05::PROP, &props::c12::PROP, &props::c13::PROP, &props::c14::PROP, &props::c15::PROP, &props::c16::PROP, &props::c17::PROP, &props::c03::PROP, &props::c09::PROP, &props::c10::PROP, &props::c11::PROP, &props::c04::PROP, &props::c06::PROP, &props::c07::PROP, &props::c08::PROP]
 }
 
 fn main() {
